@@ -354,6 +354,73 @@ def shift_cases(draw):
     return c
 
 
+MULTIVARIATE_SPECS = [{"kind": "scaler", "which": "standard"}, {"kind": "scaler", "which": "minmax"}, {"kind": "func", "name": "sqrt"},
+                      {"kind": "func", "name": "cbrt"}, {"kind": "log"}, {"kind": "cos"}, {"kind": "imputer", "method": "mean"},
+                      {"kind": "imputer", "method": "linear"}, {"kind": "hampel", "window_length": 5, "n_sigma": 3}]
+
+
+def oracle_multivariate(case, ctx):
+    """Several variables at once (a DataFrame): same index in, same index and columns out, on the
+    training stretch and on a later one; inverse back to the input; a shifted index shifts along."""
+    spec = case["spec"]
+    n, c, start, ik = case["n"], case["c"], case["start"], case["index_kind"]
+    ctx.label(spec["kind"])
+    ctx.mark_nontrivial(start != 0 and c >= 2)
+
+    def frame(s0, m, seed):
+        idx = gen.int_index(s0, m, ik)
+        return pd.DataFrame({"v%d" % j: [7.0 + 2.5 * np.sin(0.7 * k + j + seed) + 0.21 * k + ((k * 13 + j) % 7) / 5.0 for k in range(m)] for j in range(c)}, index=idx)
+
+    Z = frame(start, n, 0)
+    Z2 = frame(start + n + case["gap"], case["m"], 3)
+    if spec["kind"] == "imputer":
+        Z.iloc[2, 0] = np.nan
+        Z2.iloc[1, c - 1] = np.nan
+    discs = []
+    outs = {}
+    for shift in (0, case["shift"]):
+        t = sut(lambda: pools.build_transformer(spec) if spec["kind"] == "func" else panelpool.build_series_transformer(spec))
+        A, B = Z.copy(), Z2.copy()
+        A.index = gen.int_index(start + shift, n, ik)
+        B.index = gen.int_index(int(Z2.index[0]) + shift, len(Z2), ik)
+        r = sut(t.fit, A.copy())
+        if isinstance(r, Raised):
+            return [unexpected(r, "fit %s on a %d-column frame" % (spec["kind"], c))]
+        for name, W in (("train", A), ("later", B)):
+            o = sut(t.transform, W.copy())
+            if isinstance(o, Raised):
+                discs.append(D("transform_raised:%s" % spec["kind"], "%s frame: %r" % (name, o)))
+                return discs
+            if not isinstance(o, pd.DataFrame) or o.shape != W.shape:
+                discs.append(D("multivariate_output_shape:%s" % spec["kind"], "%s: %s for input %s" % (name, getattr(o, "shape", type(o).__name__), W.shape)))
+                return discs
+            if [int(i) for i in o.index] != [int(i) for i in W.index]:
+                discs.append(D("index_not_preserved:%s" % spec["kind"], "%s frame (%d columns): index %s expected %s" % (name, c, list(o.index)[:4], list(W.index)[:4])))
+                return discs
+            outs[(shift, name)] = np.asarray(o, dtype=float)
+            if hasattr(t, "inverse_transform") and spec["kind"] not in ("imputer", "hampel", "cos"):
+                back = sut(t.inverse_transform, o.copy())
+                if isinstance(back, Raised):
+                    discs.append(D("inverse_raised:%s:%s" % (spec["kind"], back.type), "%s frame: %s" % (name, back.msg)))
+                    return discs
+                if [int(i) for i in back.index] != [int(i) for i in W.index]:
+                    discs.append(D("inverse_index:%s" % spec["kind"], "%s frame: %s expected %s" % (name, list(back.index)[:4], list(W.index)[:4])))
+                    return discs
+                if not close(back, W):
+                    discs.append(D("inverse_roundtrip:%s" % spec["kind"], "%s frame" % name))
+                    return discs
+    for name in ("train", "later"):
+        if not close(outs[(0, name)], outs[(case["shift"], name)], 1e-12):
+            discs.append(D("values_depend_on_index_origin:%s" % spec["kind"], "%s frame, index shifted by %d" % (name, case["shift"])))
+    return discs
+
+
+@st.composite
+def multivariate_cases(draw):
+    return {"spec": draw(st.sampled_from(MULTIVARIATE_SPECS)), "n": draw(st.integers(8, 20)), "c": draw(st.integers(2, 3)), "m": draw(st.integers(7, 12)),
+            "gap": draw(st.integers(0, 4)), "start": draw(gen.index_start), "index_kind": draw(gen.index_kind), "shift": draw(st.sampled_from([1, -3, 7, 100]))}
+
+
 def subchecks():
     phase_specs = st.builds(lambda sp, m, k: {"kind": k, "sp": sp, "model": m}, st.integers(2, 8),
                             st.sampled_from(["additive", "multiplicative"]), st.sampled_from(["deseason", "deseason", "cond_deseason"]))
@@ -361,6 +428,7 @@ def subchecks():
         SubCheck("inverse_roundtrip", oracle_inverse, base_case(invertible_specs()), quick=2000, thorough=8000, shards_quick=4, shards_thorough=16),
         SubCheck("seasonal_phase", oracle_phase, base_case(phase_specs), quick=1500, thorough=8000, shards_quick=4, shards_thorough=8),
         SubCheck("shift_metamorphic", oracle_shift, shift_cases(), quick=2000, thorough=8000, shards_quick=4, shards_thorough=16),
+        SubCheck("multivariate_frames", oracle_multivariate, multivariate_cases(), quick=600, thorough=6000, shards_quick=4, shards_thorough=16),
     ]
 
 
